@@ -71,7 +71,7 @@ func Reference(sc *Scenario, o *Outcome, idx int) ([]RefHop, *RefInfo) {
 			info.SendAt[t] = e.At
 		}
 		if info.RunFlow == "" {
-			info.RunFlow = e.Probe.FlowKey()
+			info.RunFlow = FlowID(e.Probe, idx)
 			info.Target = e.Probe.IP.Dst
 		}
 		sendLog = append(sendLog, sendRec{e.At, t})
